@@ -341,7 +341,7 @@ pub fn generate_c15(run_seed: u64, thorough: bool, faults: bool) -> ListDesc {
     for k in 0..n_inner {
         m.heap.new_list(inner_init[k].clone());
     }
-    let script_ok = |op: &Op| -> bool { !matches!(op, Op::IterWithPush { .. } | Op::InnerPush { .. } | Op::FromVec { .. } | Op::CloneH { .. } | Op::DropH { .. } | Op::ToVec { .. } | Op::Iter { .. } | Op::Debug { .. }) };
+    let script_ok = |op: &Op| -> bool { !matches!(op, Op::IterConsume { .. } | Op::IterWithPush { .. } | Op::InnerPush { .. } | Op::FromVec { .. } | Op::CloneH { .. } | Op::DropH { .. } | Op::ToVec { .. } | Op::Iter { .. } | Op::Debug { .. }) };
     let rust_ok = |op: &Op| -> bool { !matches!(op, Op::TmpGet { .. } | Op::BranchLit { .. } | Op::Lit9 { .. } | Op::Join { .. } | Op::ForCount { .. } | Op::ForSum { .. } | Op::ForPush { .. } | Op::ForFind { .. }) };
     for _ in 0..nops {
         let filled: Vec<usize> = (0..nslots).filter(|&s| m.slots[s].is_some()).collect();
@@ -380,7 +380,7 @@ pub fn generate_c15(run_seed: u64, thorough: bool, faults: bool) -> ListDesc {
                     _ => g.r.below(len + 2),
                 }
             };
-            match g.r.weighted(&[22, 12, 3, 2, 2, 6, 5, 4, 8, 7, 5, 3, 2, 3, 4, 3, 3, 3, 3, 4, 3, 3]) {
+            match g.r.weighted(&[22, 12, 3, 2, 2, 6, 5, 4, 8, 7, 5, 3, 2, 3, 4, 3, 3, 3, 3, 4, 3, 3, 3]) {
                 0 => Op::Push { h, v: fresh(&mut g) },
                 1 => Op::Get { h, i: idx(&mut g) },
                 2 => Op::Len { h },
@@ -420,6 +420,12 @@ pub fn generate_c15(run_seed: u64, thorough: bool, faults: bool) -> ListDesc {
                 }
                 18 => Op::Concat { a: h, b: h, dst: Some(any(&mut g)), plus: false },
                 20 => Op::TmpGet { vals: (0..2).map(|_| fresh(&mut g)).collect(), i: g.r.below(3) },
+                22 => {
+                    // prefer an alias slot that holds the same list
+                    let same: Vec<usize> = (0..nslots).filter(|&s| s != h && m.slots[s] == m.slots[h]).collect();
+                    let alias = if !same.is_empty() && g.r.chance(3, 4) { *g.r.pick(&same) } else { any(&mut g) };
+                    if alias == h { Op::Len { h } } else { Op::IterConsume { h, alias, k: g.r.below(len + 2) } }
+                }
                 21 => {
                     if len > 30 { Op::Len { h } } else { Op::IterWithPush { h, k: g.r.below(len + 2), v: fresh(&mut g) } }
                 }
@@ -524,6 +530,7 @@ pub fn op_label(op: &Op, origin: &Origin) -> String {
         Op::Lit9 { .. } => "literal9",
         Op::BranchLit { .. } => "branch-literal",
         Op::TmpGet { .. } => "get-on-temporary",
+        Op::IterConsume { .. } => "consuming-into_iter",
         Op::IterWithPush { .. } => "into_iter-with-push",
         Op::CloneH { .. } => "clone",
         Op::DropH { .. } => "drop",
@@ -670,6 +677,13 @@ where
         }));
     }
 
+    // In concurrent runs the harness keeps no handle of its own: a list lives exactly as long as
+    // the threads' handles (the last one may go away while another thread is inside a script
+    // call that owns its own clone).
+    if !sequential {
+        let _rg = alloc::ModeGuard::new(alloc::MODE_RUN);
+        shared.clear();
+    }
     let strategy = Strategy::parse(&d.strategy).unwrap_or(Strategy::Uniform);
     let out = sched::run_sim(
         SimCfg {
